@@ -28,8 +28,8 @@ Cases == JsonDeserialize(IOEnv.VERIF_CASES)
 NCases == Len(Cases)
 MaxDen == 10000
 
-VARIABLES i, bad, skipped
-tvars == <<ign, lev, ref, oth, cells, out, pc, i, bad, skipped>>
+VARIABLES i, bad, skipped, free
+tvars == <<ign, lev, ref, oth, cells, out, pc, i, bad, skipped, free>>
 
 Num(t, n) == IF t = 0 THEN n ELSE IF t = 1 THEN NaN ELSE IF t = 2 THEN PInf ELSE NInf
 CellsOf(s) == [b \in 1 .. Len(s) |-> <<Num(s[b][1], s[b][2]), Num(s[b][3], s[b][4])>>]
@@ -40,8 +40,8 @@ Exp(c) == S!Expected(RefOf(c), OthOf(c), c.ign, c.lev)
 Wrong(o, e, yes, no) == (e = yes /\ ~o) \/ (e = no /\ o)
 
 StatMatches(e, o) ==
-   /\ e.k = "rat" => \/ o[1] = 0 /\ o[2] = e.n /\ o[3] = e.d
-                     \/ o[1] = 3 /\ e.d > MaxDen
+   /\ e.k = "rat" => IF e.d <= MaxDen THEN o[1] = 0 /\ o[2] = e.n /\ o[3] = e.d
+                     ELSE o[1] \in {0, 3}       \* the recorder only recovers rationals with a small denominator
    /\ e.k = "inf" => o[1] = 1
    /\ e.k = "nan" => o[1] = 2
 
@@ -61,10 +61,12 @@ Mismatches(c, e) ==
    \cup {<<c.id, "meta", m, 0, e.verdict>> :
             m \in {n \in 1 .. Len(c.meta) : Wrong(c.meta[n], e.verdict, "pass", "fail")}}
 
-Unjudged(c, e) ==
-   Cardinality({<<d, j>> \in DsOf(c) \X (1 .. S!NLev) : e.pv[d][j] \in {"band", "free"}})
+(* judgements not made on this case because of kind k: "band" (statistic inside
+   a critical-value band) or "free" (ndf = 0, undefined statistic at another
+   level than the test's) *)
+Unjudged(c, e, k) == Cardinality({<<d, j>> \in DsOf(c) \X (1 .. S!NLev) : e.pv[d][j] = k})
 
-TInit == /\ i = 1 /\ bad = {} /\ skipped = 0
+TInit == /\ i = 1 /\ bad = {} /\ skipped = 0 /\ free = 0
          /\ ign = FALSE /\ lev = 1 /\ ref = <<>> /\ oth = <<>> /\ cells = <<>> /\ out = S!NoOut /\ pc = "todo"
 TStep == /\ i <= NCases
          /\ i' = i + 1
@@ -72,8 +74,9 @@ TStep == /\ i <= NCases
          /\ ref' = RefOf(Cases[i]) /\ oth' = OthOf(Cases[i]) /\ cells' = <<>>
          /\ out' = Exp(Cases[i]) /\ pc' = "done"
          /\ bad' = bad \cup Mismatches(Cases[i], out')            \* out' is a value by now: computed once
-         /\ skipped' = skipped + Unjudged(Cases[i], out')
-         /\ (i = NCases => TLCSet(1, [bad |-> bad', skipped |-> skipped', last |-> out']))
+         /\ skipped' = skipped + Unjudged(Cases[i], out', "band")
+         /\ free' = free + Unjudged(Cases[i], out', "free")
+         /\ (i = NCases => TLCSet(1, [bad |-> bad', skipped |-> skipped', free |-> free', last |-> out']))
 TSpec == TInit /\ [][TStep]_tvars
 
 (* the invariants of the property-level spec are evaluated on every consumed case *)
